@@ -96,9 +96,8 @@ impl Value {
 
     pub fn integer(self) -> Result<i64> {
         match self {
-            Self::Number(val) => val
-                .to_string()
-                .parse()
+            Self::Number(val) if val.fract().is_zero() => val
+                .to_i64()
                 .map_or(Err(Error::InvalidInteger), |num| Ok(num)),
             _ => Err(Error::InvalidInteger),
         }
